@@ -90,6 +90,9 @@ harness!(fu_push_2, fu::step_push(&UCfg { caps: [2, 0, 0], n: 1, selfwakes: 0, q
 harness!(fob_poll_c2, fob::step_poll(&OCfg { cap: 2, max_parked: 1, selfwakes: 0 }));
 harness!(fob_poll_c2_p0, fob::step_poll(&OCfg { cap: 2, max_parked: 0, selfwakes: 0 }));
 harness!(fob_poll_c3, fob::step_poll(&OCfg { cap: 3, max_parked: 1, selfwakes: 0 }));
+harness!(fob_poll_drop_c1, fob::step_poll_drop(&OCfg { cap: 1, max_parked: 1, selfwakes: 0 }));
+harness!(fob_poll_drop_c1_hi, fob::step_poll_drop_out(&OCfg { cap: 1, max_parked: 1, selfwakes: 0 }, Some(usize::MAX)));
+harness!(fob_poll_drop_c2, fob::step_poll_drop(&OCfg { cap: 2, max_parked: 1, selfwakes: 0 }));
 harness!(fob_poll_c1_p2, fob::step_poll(&OCfg { cap: 1, max_parked: 2, selfwakes: 0 }));
 harness!(fob_poll_c2_p2, fob::step_poll(&OCfg { cap: 2, max_parked: 2, selfwakes: 1 }));
 harness!(fob_push_c2, fob::step_push(&OCfg { cap: 2, max_parked: 1, selfwakes: 0 }));
@@ -113,6 +116,7 @@ harness!(mb_end_many_6, mg::end_many());
 harness!(mu_rot_124_c0, mg::rot_unbounded(0, 0b001, 0b001));
 harness!(mu_rot_124_c1, mg::rot_unbounded(1, 0b111, 0b011));
 harness!(fub_stale_many, fub::stale_many());
+harness!(fub_budget_fifo, fub::budget_fifo());
 harness!(mu_poll_12_c1, mg::step_poll_unbounded(&MUCfg { caps: [1, 2], cursor: 1, selfwakes: 0, items: 1 }));
 // buffered adapters
 harness!(ad_bu_n2, ad::step_buffer_unordered(&ACfg { n: 2, selfwakes: 0, parked: 0, max_remaining: 2 }));
@@ -126,6 +130,7 @@ harness!(ad_bo_n2, ad::step_buffered_ordered(&ACfg { n: 2, selfwakes: 0, parked:
 harness!(ad_bo_n1, ad::step_buffered_ordered(&ACfg { n: 1, selfwakes: 0, parked: 0, max_remaining: 2 }, false));
 harness!(ad_tbu_n1, ad::step_try_buffer_unordered(&ACfg { n: 1, selfwakes: 0, parked: 0, max_remaining: 2 }));
 harness!(ad_bo_n2_p0, ad::step_buffered_ordered(&ACfg { n: 2, selfwakes: 0, parked: 0, max_remaining: 2 }, false));
+harness!(ad_tbo_n2_q0, ad::step_buffered_ordered_q(&ACfg { n: 2, selfwakes: 0, parked: 1, max_remaining: 2 }, true, true));
 harness!(ad_tbo_n2, ad::step_buffered_ordered(&ACfg { n: 2, selfwakes: 0, parked: 1, max_remaining: 2 }, true));
 // join_all / try_join_all
 harness!(ja_poll_n2, ja::step_join_all(&JCfg { n: 2, selfwakes: 0 }));
@@ -210,6 +215,7 @@ pub fn table() -> &'static [(&'static str, fn())] {
         ("fob_poll_c2", fob_poll_c2),
         ("fob_poll_c2_p2", fob_poll_c2_p2),
         ("fob_poll_c1_p2", fob_poll_c1_p2),
+        ("fob_poll_drop_c2", fob_poll_drop_c2),
         ("fob_poll_c3", fob_poll_c3),
         ("mb_poll_c3", mb_poll_c3),
         ("fub_push_c3", fub_push_c3),
@@ -237,6 +243,9 @@ pub fn table() -> &'static [(&'static str, fn())] {
         ("ad_fe_n1", ad_fe_n1),
         ("ad_fe_n0", ad_fe_n0),
         ("ad_bo_n2", ad_bo_n2),
+        ("ad_tbo_n2_q0", ad_tbo_n2_q0),
+        ("fob_poll_drop_c1", fob_poll_drop_c1),
+        ("fob_poll_drop_c1_hi", fob_poll_drop_c1_hi),
         ("ad_bo_n2_p0", ad_bo_n2_p0),
         ("ad_bo_n1", ad_bo_n1),
         ("ad_tbu_n1", ad_tbu_n1),
@@ -250,6 +259,7 @@ pub fn table() -> &'static [(&'static str, fn())] {
         ("mu_rot_124_c0", mu_rot_124_c0),
         ("mu_rot_124_c1", mu_rot_124_c1),
         ("fub_stale_many", fub_stale_many),
+        ("fub_budget_fifo", fub_budget_fifo),
         ("fu_poll_12_c1", fu_poll_12_c1),
         ("fu_poll_12_c2", fu_poll_12_c2),
         ("fu_push_12", fu_push_12),
